@@ -521,7 +521,7 @@ class Core(composites.Composite):
             raise ValueError(
                 "Cannot add {} because location {} is already filled by {}."
                 "".format(
-                    aName, a.spatialLocator, self.childrenByLocator[a.spatialLocator]
+                    aName, spatialLocator, self.childrenByLocator[spatialLocator]
                 )
             )
 
